@@ -67,6 +67,11 @@ CHECKS = {
          "For 75 secret-processing functions, on success and on every driven error exit and fault position, every block handed back to the allocator must carry the wipe pattern over its whole size (exact-size blobs); realloc is interposed as allocate-copy-snapshot-free so released old blocks are judged too; a content search for the call's secrets in freed blocks is a second signal.",
          "Trusted: TLC, the interposed allocator and its pattern test (src/core/mem.c memWipe), the driven function table of harness/drv_err.c.",
          "DESIGN.md section 4, C15"),
+ "C18": ("model_checking",
+         "spec/sm/RngMT.tla + Once.tla at the grain of the code's atomic steps (once CAS / initialiser / publication, mutex, critical-section bodies, reference count; every action declares its memory accesses as atomic or plain) model-checked exhaustively by TLC (mutual exclusion, run-once, NoRace in the SC-race sense, ref balance, full length, distinct output blocks, liveness under fairness); TLC-generated schedules replayed on real pthreads through a cooperative scheduler at the guarded VERIF_POINTs; free-running stress traces validated by Trace_RngMT; ThreadSanitizer reports logged as Race events for which the trace spec has no action",
+         "All interleavings of 2 threads x <= 5 calls and 3 threads x <= 3 calls (thorough: 2x6, 3x4, 4x3; 9.5 M states) on the model; 2..16 threads by simulation, replay and recorded stress bound to the real code (projection once/inited/refcount/validity compared after every step; output units compared on real octets). TSan binds the atomic/plain attribute of the model's accesses to the code.",
+         "Trusted: TLC, the model's correspondence to rng.c/mt.c (bound by replay + trace validation + 13 rejection self-tests), ThreadSanitizer, the guarded hooks. Weak-memory behaviours only through the SC-race criterion plus TSan. Unreferenced rngIsValid is outside the quantifier (observation only).",
+         "DESIGN.md section 4, C18"),
  "C19": ("translation_validation",
          "re-execution of the replay suites in every build configuration; TLC judges every distinct answer with the TLA+ reference semantics and checks with spec/mon/Configs.tla that all configurations answered every case identically",
          "The enumerated cases of the functional checks (belt record/FMT/generated cases/fragment scripts/overlap placements, plus the suites of the other drivers) are executed by harnesses built per configuration: {64,32}-bit words x {SAFE,FAST} x {-O0..-O3} x {NDEBUG on,off} x bash-f platform (quick: 6 configurations toggling each axis once; thorough: the product the CPU supports). The right value is pinned by the specification, not merely a common one.",
